@@ -96,6 +96,7 @@ def make_world(case):
         fr["u"] = ((ku * 37 + jju[None] * 11 + iiu[None] * 5) % 16) / 8.0 - 1.0
         fr["v"] = ((ku * 13 + jjv[None] * 7 + iiv[None] * 3) % 16) / 8.0 - 0.875
     fr["temp"] = 4.0 + ((ku * 7 + jj[None] * 3 + ii[None]) % 8) / 4.0
+    fr["salt"] = 30.0 + ((ku * 5 + jj[None] * 7 + ii[None] * 3) % 16) / 8.0  # a second scalar of the same shape
     return w, fr
 
 
@@ -131,10 +132,10 @@ def run_case(case):
 
     w, fr = make_world(case)
     d = util.scratch("c02")
-    scale = dict(u=(2.0 ** -9, 0.0), v=(2.0 ** -10, 0.0), temp=(2.0 ** -6, 8.0))  # u and v packed differently on purpose
+    scale = dict(u=(2.0 ** -9, 0.0), v=(2.0 ** -10, 0.0), temp=(2.0 ** -6, 8.0), salt=(2.0 ** -5, 20.0))  # u and v packed differently on purpose
     # two files (the second one packed differently): the per-file scaling attributes must be honoured
     f = w.write_file(d / "f_0.nc", [dict(t=S0, **fr)], storage=case["storage"], scale=scale)
-    scale_b = dict(u=(2.0 ** -11, 0.0), v=(2.0 ** -12, 0.0), temp=(2.0 ** -7, 2.0))
+    scale_b = dict(u=(2.0 ** -11, 0.0), v=(2.0 ** -12, 0.0), temp=(2.0 ** -7, 2.0), salt=(2.0 ** -6, 25.0))
     w.write_file(d / "f_1.nc", [dict(t=S0 + 10 * DT, **fr)], storage=case["storage"], scale=scale_b)
     pattern = str(d / "f_*.nc")
     viols, n, nt = [], 0, 0
@@ -170,17 +171,18 @@ def run_case(case):
             continue
         P = particles(w, *exp_lim)
         X, Y, Z = (np.array([p[k] for p in P]) for k in range(3))
-        st = State(instance_variables=dict(temp=float))
-        st.append(X=X, Y=Y, Z=Z, temp=0.0)
+        st = State(instance_variables=dict(temp=float, salt=float))
+        st.append(X=X, Y=Y, Z=Z, temp=0.0, salt=0.0)
         tk = TimeKeeper(start=world.iso(S0), stop=world.iso(S0 + 5 * DT), dt=DT)
         try:
-            force = Forcing(dict(time=tk, grid=grid, state=st), pattern, extra_forcing=["temp"])
+            force = Forcing(dict(time=tk, grid=grid, state=st), pattern, extra_forcing=["temp", "salt"])
             tk.update()
             force.update()
             u1, v1 = np.array(force.variables["u"]), np.array(force.variables["v"])
             u2, v2 = force.velocity(st.X, st.Y, st.Z)
             u3, v3 = force.velocity(st.X, st.Y, st.Z, fractional_step=0.5)
             t1, t2 = np.array(force.variables["temp"]), np.array(st["temp"])
+            s1 = np.array(force.variables["salt"])
             phase2 = None
             if sg is None:
                 # second step: every particle is moved to the neighbouring lattice position (depths unchanged), as the tracker would
@@ -191,6 +193,16 @@ def run_case(case):
                 force.update()
                 pu, pv = force.velocity(st.X, st.Y, st.Z)
                 phase2 = (X2, Y2, np.array(force.variables["u"]), np.array(force.variables["v"]), np.array(pu), np.array(pv), np.array(force.variables["temp"]))
+            phase3 = None
+            if sg is None:
+                # surface drift: EVERY particle shallower than the top level of the deepest column, some below their own top level
+                ztop = float((-w.z_r[-1]).max())
+                Zs = np.full(len(P), 0.6 * ztop)
+                st["Z"] = Zs
+                tk.update()
+                force.update()
+                qu, qv = force.velocity(st.X, st.Y, st.Z)
+                phase3 = (np.array(st.X), np.array(st.Y), Zs, np.array(qu), np.array(qv), np.array(force.variables["temp"]))
             force.close()
         except BaseException as e:
             bad("forcing:exception", repr(e), sg)
@@ -210,6 +222,9 @@ def run_case(case):
                     bad("velocity:not-convex", f"at {p}: ({gu},{gv}) outside node range", sg)
             if not any(abs(t1[k] - e) <= 1e-12 * abs(e) for e in sc) or t1[k] != t2[k]:
                 bad("scalar", f"at {p}: temp variables={t1[k]} state={t2[k]} expected one of {sc}", sg)
+            sc2 = refinterp.scalar_candidates(w, fr["salt"], *p)
+            if not any(abs(s1[k] - e) <= 1e-12 * abs(e) for e in sc2):
+                bad("scalar:second-variable", f"at {p}: salt={s1[k]} expected one of {sc2}", sg)
             # independent exactness on linear fields away from land
             if case["field"] == "linear" and case["mask"] == "sea":
                 x, y, z = p
@@ -231,6 +246,16 @@ def run_case(case):
                         bad("second-step:velocity:" + name, f"after moving the particle to {p2} (depth unchanged): ({gu}, {gv}) expected one of {uvc}", sg)
                 if not any(abs(tt[k] - e) <= 1e-12 * abs(e) for e in sc):
                     bad("second-step:scalar", f"after moving the particle to {p2}: temp={tt[k]} expected one of {sc}", sg)
+        if phase3 is not None:
+            X3, Y3, Z3, a3, b3, t3 = phase3
+            for k in range(0, len(P), 3):
+                p3 = (float(X3[k]), float(Y3[k]), float(Z3[k]))
+                n += 1
+                uvc, sc, _ = ref(p3)
+                if not any(abs(a3[k] - eu) <= 1e-12 * max(1, abs(eu)) and abs(b3[k] - ev) <= 1e-12 * max(1, abs(ev)) for eu, ev in uvc):
+                    bad("surface-drift:velocity", f"all particles near the surface, particle at {p3}: ({a3[k]}, {b3[k]}) expected one of {uvc}", sg)
+                if not any(abs(t3[k] - e) <= 1e-12 * abs(e) for e in sc):
+                    bad("surface-drift:scalar", f"all particles near the surface, particle at {p3}: temp={t3[k]} expected one of {sc}", sg)
     return util.result(evals=n, nontrivial=nt, viol=viols, outcomes=sorted(outcomes), states=n, transitions=n,
                        sample=dict(case, subgrids=len(sgs), example_position=[2.75, 2.5, 12.0]))
 
